@@ -8,7 +8,7 @@ dirs = sorted(glob.glob("/verif/seeded/C*-?"))
 if args:
     dirs = [d for d in dirs if os.path.basename(d) in args]
 # changes that break the named property only through a route that belongs to another listed property (see DESIGN.md 9.4)
-OTHER_CHECK = {"C07-g": "C14", "C02-h": "C07"}
+OTHER_CHECK = {"C07-g": "C14", "C02-h": "C07", "C01-i": "C06"}
 out = {}
 for d in dirs:
     sid = os.path.basename(d)
